@@ -439,23 +439,33 @@ class _Panic:
         self.e = e
 
 
+_SHL = {}  # per-case shared argument lists (reset by run): callers reuse their edge lists across calls
+
+
 def _args_for(name, case, kw):
     n, src = case["n"], case["src"]
     kw = dict(kw)
     edges = case["edges"]
-    if kw.pop("_abs", False):
+    ab = bool(kw.pop("_abs", False))
+    if ab:
         edges = [(u, v, abs(w)) for u, v, w in edges]
+    # the same list object goes to every call of the case that takes this edge collection: a back-end (or adapter)
+    # that edits its input in place then shows up as a wrong answer of a later call
+    if ("w", ab) not in _SHL:
+        _SHL[("w", ab)] = list(edges)
+        _SHL[("u", ab)] = [(u, v) for u, v, _ in edges]
+    we, ue = _SHL[("w", ab)], _SHL[("u", ab)]
     if name == "floyd_warshall":
-        return (n, list(edges)), kw
+        return (n, we), kw
     if name == "bellman_ford":
-        return (src, list(edges), n), kw
+        return (src, we, n), kw
     if name == "dijkstra_edges":
-        return (n, list(edges), src), kw
+        return (n, we, src), kw
     if name in ("bfs_edges", "dfs_edges"):
-        return (n, [(u, v) for u, v, _ in edges], src), kw
+        return (n, ue, src), kw
     if name == "kruskal":
-        return (n, list(edges)), kw
-    return (n, [(u, v) for u, v, _ in edges]), kw
+        return (n, we), kw
+    return (n, ue), kw
 
 
 _PARAMS = {"floyd_warshall": ("n_nodes", "edges"), "bellman_ford": ("start", "edges", "n_nodes"),
@@ -1092,6 +1102,7 @@ def _run_graph_case(case, obs):
 
 
 def run(case, obs):
+    _SHL.clear()
     if _problem:
         obs.inconc("C12 setup: " + _problem)
         return
